@@ -21,7 +21,12 @@ JUMPS = ["if c == 2 {{ {J}; }}", "if c == 2 {{ {J}; }} else {{ 5 }}", "match c {
 SAFE_STMTS = [
     "match c { 1 => {} }", "match c { 1 => {}, _ => {} }", "if c == 1 { { 1; } }", "if c == 1 { { c; } } else { { 2; } }", "if c == 1 { }", "if c == 1 { let t = 1; }",
     "match c { 1 => { let t = 2; }, 2 => { { 3; } } }", "{ 1; 2; }", "c;", "[c, c];", "f2(c, c);", "let t = [c];", "a[0] = c;", "c == 1 && f2(c, c);", "c == 1 || c;",
-    "if c == 1 { 1 } else if c == 2 { { 2; } } else { }", "fn g() { { 1; } } g();", "let h = fn() { if c == 1 { { 1; } } }; h();", "match c { 1..3 => { { 1; } }, _ => 2 };",
+    "if c == 1 { 1 } else if c == 2 { { 2; } } else { }", "fn g() { { 1; } } g();",
+    # a return taken inside an operand position of the callee: the caller's stack must be as before the call
+    "fn r1(x) { [1, 2, if x > 0 { return x; } else { 3 }] } r1(c);", "fn r2(x) { f2(10, if x > 0 { return 0; } else { x }) } r2(c);",
+    "fn r3(x) { (1 + (2 * if x > 1 { return x; } else { 3 })) } let t = r3(c);", "fn r4(x) { map {1: if x > 0 { return x; } else { 2 }} } r4(c); r4(0);",
+    "fn r5() { } r5(); f2(r5(), 1); null == r5();", "fn r6() { let t = 1; } [r6(), r6()];", "a[1] = c; a[2] = a[1];", "let mm = map {}; mm[c] = c; mm[c] = 0;",
+    "let m2 = map {c: 1, c: 2, (c + 0): 3};", "let h = fn() { if c == 1 { { 1; } } }; h();", "match c { 1..3 => { { 1; } }, _ => 2 };",
 ]
 
 
@@ -57,8 +62,18 @@ def cases(ctx):
     for j, kind in itertools.product(JUMPS, ["break", "continue"]):
         progs.append(("stmt-jump", prog([j.format(J=kind) + ";"])))
         progs.append(("stmt-jump-long", prog([j.format(J=kind).replace("c == 2", "c == 4999").replace("c != 2", "c != 4999").replace("2 =>", "4999 =>") + ";"], 5000).replace("  push(obs, c);\n", "")))
+    # assignment to something that cannot be assigned to: rejected, or balanced — never a stack slot per execution
+    for tgt in ("f2(1, 2)", "c + f2(1, 2)", "[c]", "1", "(c)", "-c", "!c", "f2"):
+        progs.append(("odd-assignment-long", prog([f"{tgt} = 3;"], 5000).replace("  push(obs, c);\n", "")))
     for s in gen_lang.programs(rng, ctx.scale(1500, 60000), max_stmts=10):
         progs.append(("generated", s))
     srcs = [s for _, s in progs]
     lines = lang_lines(ctx, srcs)
     return [Case(l, (t,), extra={"src": s}) for l, (t, s) in zip(lines, progs)]
+
+
+def judge(c):
+    if "odd-assignment-long" in c.tags:
+        # whatever the compiler makes of it, 5000 executions must not exhaust the stack
+        return not c.impl.startswith(("rterr", "PANIC", "ABORT", "HANG"))
+    return None
